@@ -1895,17 +1895,20 @@ class PyCdlib:
         if self._rr_moved_record.initialized:
             return 0
 
-        if self._rr_moved_name is None:
-            self._rr_moved_name = b'RR_MOVED'
-        if self._rr_moved_rr_name is None:
-            self._rr_moved_rr_name = b'rr_moved'
+        rr_moved_name = self._rr_moved_name if self._rr_moved_name is not None else b'RR_MOVED'
+        rr_moved_rr_name = self._rr_moved_rr_name if self._rr_moved_rr_name is not None else b'rr_moved'
 
         # No rr_moved found, so we have to create it.  Creating a directory
         # changes its parent at once (link counts), so make sure beforehand
         # that it is not going to be refused as a duplicate.
         for child in self.pvd.root_directory_record().children:
-            if child.file_ident == self._rr_moved_name or (child.rock_ridge is not None and child.rock_ridge.name() == self._rr_moved_rr_name):
+            if child.file_ident == rr_moved_name or (child.rock_ridge is not None and child.rock_ridge.name() == rr_moved_rr_name):
                 raise pycdlibexception.PyCdlibInvalidInput('The name of the Rock Ridge relocation directory is already in use')
+
+        # (Only now are the default names settled; set_relocated_name() may be
+        # used for as long as they are not.)
+        self._rr_moved_name = rr_moved_name
+        self._rr_moved_rr_name = rr_moved_rr_name
 
         rec = dr.DirectoryRecord()
         rec.new_dir(self.pvd, self._rr_moved_name,
